@@ -1253,15 +1253,61 @@ package decimal
 //@   hint[after:mul#4] mul_eq(V(result), V(x[i:i + (m - i > k ? k : m - i)])*V(y[k:]), P(i + k))
 //@   hint[after:mul#4] assert(V(z) + V(result)*P(i + k) == V(x[:i + (m - i > k ? k : m - i)])*V(y))
 
+// decBasicSqr: z collects the squares x[i]^2*B^2i, the pooled buffer t the cross products
+// x[i]*x[j]*B^(i+j) (j < i); invariant V(z[:2i]) + 2*V(t) == V(x[:i])^2; then t is doubled and
+// added.
 //@ func decBasicSqr(z, x dec)
-//@   requires[len]     len(x) >= 1 && len(z) >= 2*len(x) && len(x) <= 1099511627775
+//@   requires[len]     len(x) >= 1 && len(z) == 2*len(x) && len(x) <= 100000000
 //@   requires[words]   wordsok(x)
 //@   requires[apart]   z.arr != x.arr
-//@   modifies mem(z[:2*len(x)])
-//@   ensures[words,C06] wordsok(z[:2*len(x)])
-//@   ensures[value,C06] V(z[:2*len(x)]) == V(x)*V(x)
+//@   modifies mem(z)
+//@   ensures[words,C06] wordsok(z)
+//@   ensures[value,C06] V(z) == V(x)*V(x)
 //@   ensures[operands,C09] samewords(x, old(x))
-//@   status assumed bounded: bounded/c06_test.go (squares on the diagonal plus doubled cross products in a pooled buffer)
+//@   hint[entry] V_bounds(x, 0, len(x))
+//@   hint[entry] V_nonneg(x, 0, len(x))
+//@   hint[entry] P_add(len(x), len(x))
+//@   hint[entry] mul_mono(V(x) + 1, P(len(x)), V(x))
+//@   hint[entry] mul_mono(V(x) + 1, P(len(x)), P(len(x)))
+//@   hint[entry] assert(V(x)*V(x) < P(2*len(x)))
+//@   loop 1 invariant[range] 1 <= i && i <= n && n == len(x) && len(t) == 2*n && len(z) == 2*n
+//@   loop 1 invariant[bufs]  fresh(t) && t.arr != z.arr && t.arr != x.arr && z.arr != x.arr
+//@   loop 1 invariant[words] wordsok(t) && wordsok(z[:2*i]) && wordsok(x)
+//@   loop 1 invariant[zeros] t[0] == 0 && (forall k in 2*i-1..2*n :: t[k] == 0)
+//@   loop 1 invariant[value] V(z[:2*i]) + 2*V(t) == V(x[:i])*V(x[:i])
+//@   loop 1 invariant[opnd]  samewords(x, old(x)) && V(x) == old(V(x))
+//@   loop 1 hint[entry] Vdef(z, 0, 1)
+//@   loop 1 hint[entry] Vdef(z, 0, 0)
+//@   loop 1 hint[entry] Vdef(x, 0, 0)
+//@   loop 1 hint[head] V_split(t, 0, i, 2*i)
+//@   loop 1 hint[head] V_split(t, 0, 2*i, 2*n)
+//@   loop 1 hint[head] V_zero(t, 2*i, 2*n)
+//@   loop 1 hint[head] mul_eq(V(t[2*i:]), 0, P(2*i))
+//@   hint[after:addMul10VVW#1] V_split(t, 0, i, 2*i)
+//@   hint[after:addMul10VVW#1] Vdef(z, 0, 2*i + 1)
+//@   hint[after:addMul10VVW#1] Vdef(z, 0, 2*i)
+//@   hint[after:addMul10VVW#1] Vdef(x, 0, i)
+//@   hint[after:addMul10VVW#1] P_add(i, i)
+//@   hint[after:addMul10VVW#1] Pdef(2*i)
+//@   hint[after:addMul10VVW#1] mul_eq(V(t[i:2*i]) + result*P(i), pre(V(t[i:2*i])) + V(x[:i])*x[i], P(i))
+//@   hint[after:addMul10VVW#1] mul_eq(V(x[:i+1]), V(x[:i]) + x[i]*P(i), V(x[:i+1]))
+//@   hint[after:addMul10VVW#1] mul_eq(V(x[:i+1]), V(x[:i]) + x[i]*P(i), V(x[:i]))
+//@   hint[after:addMul10VVW#1] mul_eq(V(x[:i+1]), V(x[:i]) + x[i]*P(i), x[i]*P(i))
+//@   hint[after:addMul10VVW#1] mul_eq(P(2*i), P(i)*P(i), x[i]*x[i])
+//@   hint[after:addMul10VVW#1] mul_eq(z[2*i+1]*B + z[2*i], x[i]*x[i], P(2*i))
+//@   hint[after:addMul10VVW#1] mul_eq(P(2*i+1), B*P(2*i), z[2*i+1])
+//@   hint[after:addMul10VVW#1] mul_eq(P(2*i), P(i)*P(i), result)
+//@   loop 1 hint V_split(t, 0, 2*i - 1, 2*n)
+//@   loop 1 hint Vdef(t, 0, 2*i - 2)
+//@   loop 1 hint V_zero(t, 2*i - 1, 2*n)
+//@   loop 1 hint mul_eq(V(t[2*i-1:]), 0, P(2*i - 1))
+//@   loop 1 hint[head] V_low(t, 0, 2*n)
+//@   loop 1 hint[head] Vdef(t, 1, 2*n - 1)
+//@   loop 1 hint[head] mul_eq(t[2*n-1], 0, P(2*n - 2))
+//@   hint[after:add10VV#1] V_low(t, 0, 2*n)
+//@   hint[after:add10VV#1] Vdef(t, 1, 2*n - 1)
+//@   hint[after:add10VV#1] V_nonneg(z, 0, len(z))
+//@   hint[after:add10VV#1] result >= 1 ==> mul_mono(1, result, P(len(z)))
 
 //@ func decKaratsubaSqr(z, x dec)
 //@   requires[len]   len(x) >= 1 && len(z) >= 6*len(x)
